@@ -15,14 +15,14 @@ CHECKS = {
    text="Hoare triple for one iteration of hexsim's run() loop (body, syscall, HexSimIO extracted mechanically each run) against isa_step transcribed from "
         "hexb.pdf: for all 2^128 register states, all memory contents, all defined instruction bytes, in-range addresses: registers, stored word + memory "
         "frame (ghost index), running/exit value, I/O event, lazy file-open discipline, connected[] frame; plus run()'s loop condition/return; HexSimIO::output/input and Processor::syscall additionally carry dfcc-enforced function contracts (callees replaced by contracts). Loop-free, so "
-        "the CBMC result is complete for one step; whole runs follow by induction over steps (paper glue).",
+        "the CBMC result is complete for one step; whole runs follow by induction over steps (paper glue). State the interpreter might carry between iterations (locals of run(), extra members) is treated as arbitrary in the step; a BOUNDED job (K=2/3 consecutive iterations entered the way run() enters its loop, not counted as proved) and a native multi-step sweep look at what a single step cannot see.",
    note="Trusted: CBMC+MiniSat, extractor rules (must-fire counts + native fidelity run real Processor vs extracted step vs isa_step each time), isa_step "
         "transcription, iostream stubs. Tracing off / truncateInputs on (defaults); tracing covered by C12.",
    technique="CBMC contract harness (pre/post + frame via ghost index) on mechanically extracted C vs executable ISA spec; counterexample replay on real hexsim::Processor"),
  "C12": dict(cat="proof", design="DESIGN.md §4 C12",
    text="2-safety by sequential self-composition: from two arbitrary host states (every member and the whole 200000-word array havoced) the extracted constructor "
         "initialiser list + load() leave all fields a run can read equal, image words loaded and the rest zero (symbolic image length); the C02 step contract "
-        "re-proved with tracing on and the real trace()/traceSyscall(); dfcc-enforced assigns clauses show trace functions write only the ghost text log; run() returns exitCode.",
+        "re-proved with tracing on and the real trace()/traceSyscall(); and with tracing off (the cycle counter advances once per instruction in both modes, so --max-cycles cuts a run short at the same point); dfcc-enforced assigns clauses show trace functions write only the ghost text log; run() returns exitCode.",
    note="Trusted: CBMC+MiniSat, extractor rules, FILE_* stubs for ifstream, EV_FMT/EV_ARG abstraction of boost::format rendering, lookupSymbol replaced by its contract. "
         "Assumes the header's image length fits memory and is present in the file. Native stage builds the real Processor over dirty/clean storage.",
    technique="CBMC contracts: self-composition harness + dfcc assigns enforcement on mechanically extracted C; native confirmation on real hexsim::Processor"),
@@ -30,8 +30,8 @@ CHECKS = {
    text="Contract on one hextb clock (rising-edge eval + falling-edge eval) of the C that Verilator generates from verilog/*.sv, converted to C each run: from every "
         "settled state with the inductive invariant (oreg_q&0xF)==0 and in-range addresses, registers, stored word and memory frame (ghost index over all 2^19 words) "
         "equal isa_step; nothing changes on the falling edge; syscall request raised exactly for SVC with o_syscall==areg&3; post-state settled and invariant "
-        "re-established. Verilator's convergence loops unwound 4 with unwinding assertions.",
-   note="Trusted: CBMC+MiniSat, Verilator 5.006 as the RTL semantics, vl2c rule list + VL_* helper prelude, isa_step. Base case (reset) in C13; whole runs by induction (paper).",
+        "re-established. Verilator's convergence loops unwound 4 with unwinding assertions. Base case: from every power-on state, a clock edge under reset (and the asynchronous assertion of reset) yields the simulator's constructor state (values read from hexsim.hpp each run), releasing reset keeps it.",
+   note="Trusted: CBMC+MiniSat, Verilator 5.006 as the RTL semantics, vl2c rule list + VL_* helper prelude, isa_step. Reset window of the testbench in C13; whole runs by induction (paper).",
    technique="CBMC contract harness on Verilator-generated code converted to C vs executable ISA spec; replay on natively Verilated model"),
  "C16": dict(cat="proof", design="DESIGN.md §4 C16",
    text="Product harness over the Verilator-generated C of processor.sv and of each shipped processor.v: equal registers and arbitrary equal previous inputs, arbitrary new "
@@ -42,7 +42,7 @@ CHECKS = {
    text="hextb.cpp's run() (prologue, loop condition, loop body) and handleSyscall() extracted to C over the Verilator-generated model (incl. generated "
         "eval_initial/eval_settle): for every power-on state (all Verilated fields arbitrary within their widths, memory arbitrary) the RESET_END ticks of the reset "
         "window (code constant, fully unwound with unwinding assertions) service a system call only from the start state with memory intact, change no memory word "
-        "(ghost index), end in pc=areg=breg=oreg=0, and the next rising edge releases reset and executes address 0.",
+        "(ghost index), end in pc=areg=breg=oreg=0, and the next rising edge releases reset and executes address 0. hextb's load() is under contract too: from every power-on memory, afterwards each RTL memory word is the file's word or zero (confirmed on the real testbench by programs that exit with a never-written word under several seeds).",
    note="Trusted: CBMC+MiniSat, Verilator 5.006 (same generator options as the CMake build), vl2c/tbx rule lists, tick counter for VerilatedContext time. "
         "Assumes the image's stack-pointer word is inside memory (only relevant when the first instruction is SVC). Remainder of the run: C03 per clock, C06 for the shim.",
    technique="CBMC contract harness over extracted testbench loop + Verilator-generated C, all power-on states; replay through hextb.cpp's own run() on the native model"),
@@ -51,10 +51,10 @@ CHECKS = {
         "symbolic length, discharged as generated base/step/exit obligations on the mechanically extracted loop body and Directive class family (ghost reference k / target t; "
         "ghost adjacent pair for the offset chain); the exit lemma of a changeless pass gives 'address after the instruction + operand == label address' / 'operand == word address "
         "or rejected', and a completeness invariant with a moving ghost witness shows a program is rejected for alignment only if some absolute reference's label is unaligned in the final layout; per-directive Hoare triple for emitProgramBin's loop body (bytes decode by the ISA prefix rule to the resolved operand, running offset == layout offset); "
-        "header-word lemma. Termination: lengths never shrink and are <= 8, and a pass that grows no reference moves no label (inductive invariant, unbounded in program length); that the sum of (8-length) then bounds the "
+        "header-word lemma. numNibbles/instrLen are extracted whatever their loop shape (unrecognised shapes are unwound 9x with unwinding assertions: complete for a width-bounded loop). Termination: lengths never shrink and are <= 8, and a pass that grows no reference moves no label (inductive invariant, unbounded in program length); that the sum of (8-length) then bounds the "
         "number of passes by 7n+2 is paper glue. A BOUNDED cross-check of the measure on programs of <=4/6 directives is kept and not counted as proved.",
    note="Trusted: CBMC+MiniSat, extractor rules (dirx/asmx), WF() of directive objects (constructors unverified; instantiated at visited/dereferenced elements), std::map lookup = "
-        "declaring directive, outer loop/constructor/emitBin matched textually, composition of the lemmas on paper. Native sweep of the real assembler is the counterexample search + replay.",
+        "declaring directive, outer loop/constructor/emitBin matched textually, composition of the lemmas on paper. Native sweep of the real assembler is the counterexample search + replay. A second native stage assembles 1024 programs whose reference operand is exactly +-(m*16^k+{-1,0,1}) (images up to 790000 bytes).",
    technique="CBMC code contracts + generated base/step/exit invariant obligations on mechanically extracted C; native replay on real hexasm"),
  "C17": dict(cat="proof", design="DESIGN.md §4 C17",
    text="Per-directive obligation on the extracted loop bodies of emitProgramBin and emitProgramText run on the same object and state: the listed offset is where the encoding "
@@ -67,7 +67,7 @@ CHECKS = {
         "mnemonic of the fetched opcode, byte&0xF) and then executes exactly that instruction (== isa_step), for all states; (2) lookupSymbol under a function + loop contract over a table of "
         "symbolic length (no out-of-bounds read; returns an entry with offset<=pc<next offset, none below the first); with non-decreasing offsets it is the last entry at or below pc; "
         "(3) emitProgramBin records one symbol per FUNC/PROC with the address of the next emitted byte; (4) the loop bodies of emitDebugInfo (writer) and of load()'s symbol reader are under "
-        "inductive invariants over a table of symbolic length: the table hexsim loads is the table hexasm recorded, entry by entry. The corollary 'procedure entries in a trace equal the source call sequence' "
+        "inductive invariants over a table of symbolic length: the table hexsim loads is the table hexasm recorded, entry by entry. A precision on a string directive of the trace format (column cut short) is an obligation of its own. The corollary 'procedure entries in a trace equal the source call sequence' "
         "needs compiler correctness (C01) and is assumed, not claimed.",
    note="Trusted: CBMC+MiniSat, extractor rules, EV_FMT/EV_ARG abstraction of boost::format, unique symbol names for debugInfoMap, instrEnumToStr table. In the round trip the names are ids (string bytes dropped) and the "
         "enclosing function structure is compared textually. Native stage: real hexasm -> real hexsim -t, every trace line checked against an ISA run.",
@@ -76,10 +76,10 @@ CHECKS = {
    text="The folding switches of xcmp's ConstProp are extracted as fold_bin/fold_un; the run-time side is the REAL xcmp's output (compiler rebuilt from the working tree each run) executed "
         "on the extracted hexsim step with the operand variables' DATA words symbolic (banked memory, cbmc --paths lifo, loop-free programs fully unwound with unwinding assertions): "
         "for every operator, for all 2^64 operand pairs, exit value == fold(op,a,b); for a family of placements (v op (c1 op2 c2), (c1 op2 c2) op v, v op c, c op v, val names, nested) "
-        "the literal-constant image equals the all-variables image for ALL v. Proof over operand values; shapes and embedded constants are a bounded family (labelled so). "
+        "the literal-constant image equals the all-variables image for ALL v. The family includes a constant against an operand that needs a register of its own (compound sub-expression) for every operator. Proof over operand values; shapes and embedded constants are a bounded family (labelled so). "
         "The known relational-overflow divergence is a split obligation reported as KNOWN-FINDING.",
    note="Trusted: CBMC+MiniSat path exploration, extractor rules, xcmp binary as generator of run-time code, C02/C12 for the simulator. Folder's int +,-,unary- verified under two's-complement "
-        "wrap (signed-overflow check off for this unit: UB by the standard, C09's business). and/or/~ over boolean operands.",
+        "wrap (signed-overflow check off for this unit: UB by the standard, C09's business). and/or/~ over boolean operands. Operands that are function calls are out of reach of the path back end (timeouts): a native stage runs 54 such programs on the real xcmp + hexsim (constant as val vs assigned variable) instead -- sampled, not proved.",
    technique="CBMC symbolic execution of real compiler output on mechanically extracted simulator step vs extracted folder; replay on real xcmp + hexsim"),
  "C06": dict(cat="proof", design="DESIGN.md §4 C06",
    text="Lock-step simulation relation between the extracted hexsim (run() loop body, syscall, HexSimIO) and the extracted hextb (run() loop body split at the system-call sampling "
